@@ -21,6 +21,7 @@ class Program:
     dm: Optional[DataModel] = None
     label: str = ""
     tags: tuple = ()
+    src: str = ""              # the query without the MetaData wrappers (for display)
 
     def datamodel(self):
         return self.dm if self.dm is not None else DataModel(self.backend)
@@ -132,7 +133,7 @@ class Encoded:
         self.book_ast = cxx.parse_code_lines(main["book_code"])
         self.query_ast = cxx.parse_code_lines(main["query_code"])
         self.includes = list(main["body_include_files"])
-        self.exec = Exec(self.event, dm, members, self.ctx, tag=tag, member_pre=member_pre)
+        self.exec = Exec(self.event, dm, members, self.ctx, tag=tag, member_pre=member_pre, patches=patches)
         # booking (constructor / initialize): executed once, concretely guarded
         self.exec.run_block(self.book_ast, TRUE)
         self.book_faults = list(self.exec.faults)
